@@ -645,7 +645,7 @@ func (c *child) send(r Req) (*Resp, bool) {
 			return nil, false
 		}
 		return &rs, true
-	case <-time.After(25 * time.Second):
+	case <-time.After(time.Duration(25+r.TimeoutS) * time.Second):
 		return nil, false
 	}
 }
@@ -883,6 +883,25 @@ func runShard(reqs []Req, probe Req, add func(Finding), mu *sync.Mutex, codes ma
 		}
 		codes[fmt.Sprintf("%s:%d", ep, rs.Code)]++
 		mu.Unlock()
+		if rs.Timeout && rq.TimeoutS == 0 {
+			// a loaded machine can make an innocent request slow: a hang must reproduce on a fresh child with five times the limit
+			if !restart() {
+				mu.Lock()
+				*infra = append(*infra, "cannot restart child")
+				mu.Unlock()
+				break
+			}
+			again := rq
+			again.TimeoutS = 30
+			if rs2, ok2 := ch.send(again); ok2 && !rs2.Timeout {
+				mu.Lock()
+				codes["slow-not-hung:"+ep]++
+				mu.Unlock()
+				rs = rs2
+			} else if ok2 {
+				rs = rs2
+			}
+		}
 		if rs.Timeout {
 			kind, where := "blocked", strings.Join(rs.Left, ",")
 			if len(rs.Spinning) > 0 {
